@@ -18,7 +18,8 @@ THEOREMS = ['C16_quoted_atom_roundtrip', 'C16_quoted_atom_in_context', 'C16_quot
             'C16_list_pattern_folds', 'C16_list_literal', 'C16_anon_fresh', 'C16_anon_name_inj', 'C16_anon_not_source',
             'C16_literal_denotation', 'C16_makelist_listpair_chain', 'C16_to_python_literal', 'C16_to_python_compiled_literal',
             'C16_api_term_unifies', 'C16_atom_identity', 'C16_atom_unify_by_name',
-            'C16_file_bytes_roundtrip', 'C16_file_entry_point', 'C16_cli_reads_text', 'C16_file_decoding_strict', 'C16_file_encoding_injective', 'C16_file_ascii_bytes']
+            'C16_file_bytes_roundtrip', 'C16_file_entry_point', 'C16_cli_reads_text', 'C16_file_decoding_strict', 'C16_file_encoding_injective', 'C16_file_ascii_bytes',
+            'C16_to_python_objects_value', 'C16_to_python_fresh_lists', 'C16_to_python_results_disjoint', 'C16_to_python_twice']
 RULE = ('programs of facts fact_i(L, V1..Vn), rules body_i(R, V1..Vn) :- R = L and at_j(A) for random literals L: plain and quoted '
         'atoms (spaces, quotes, line breaks, tabs, non-ASCII incl. astral and combining code points, digits-only, empty, [] ), '
         'integers with leading zeros and bignums, named and anonymous variables, compound terms with plain, quoted and operator '
@@ -31,6 +32,8 @@ RULE = ('programs of facts fact_i(L, V1..Vn), rules body_i(R, V1..Vn) :- R = L a
         'command line from a file and from standard input) must denote the same terms. Files given as BYTES (UTF-8 of a random atom, damaged '
         'or extended by overlong forms, surrogates, truncated / stray bytes, boundary code points, byte order marks, CR forms) read through '
         'the file / command-line / standard-input entry points against the model\'s strict UTF-8 decoder and front end. '
+        'Every value returned by to_python is changed in place at every depth after it was compared (append, insert, +=, clear), every conversion '
+        'is made four times (function, method, both again), all literals are converted again at the end of the case, and no list object may occur in two results. '
         'Non-trivial: the literal contains a quoted atom with a quote, line break or non-ASCII character, or a list pattern. '
         'Distinct by hash of the program text.')
 TRUSTED_BASE = [
